@@ -27,6 +27,7 @@ enum Ch {
 
 pub struct CompSrc {
     children: Vec<Ch>,
+    sh: Rc<WrapShared>,
 }
 
 type BoxErr = Box<dyn std::error::Error + Sync + Send>;
@@ -51,7 +52,8 @@ impl EventSource for CompSrc {
                         callback(i, &mut ());
                         // consume what is there (level triggered)
                         os::read(fd.0.as_raw_fd(), 65536);
-                        Ok(PostAction::Continue)
+                        // the child may ask for its own re-registration
+                        Ok(self.sh.child_ret.take().unwrap_or(PostAction::Continue))
                     })
                     .map_err(|e: std::io::Error| Box::new(e) as BoxErr)?,
                 Ch::Timer(t) => t
@@ -153,7 +155,7 @@ pub fn insert_composite(sim: &Sim, id: Id, specs: &[ChildSpec], script: &Script)
     let guard = DropCtr(cbd.clone());
     let src = new_src(id, script, K::Comp(CompK { children: models, child_retired: false, retired_this_dispatch: false }), sh.clone(), cbd);
     let r = guarded(sim, "insert_source", || {
-        h.insert_source(Wrap::new(CompSrc { children }, sh), move |child: usize, _, tag: &mut Tag| {
+        h.insert_source(Wrap::new(CompSrc { children, sh: sh.clone() }, sh), move |child: usize, _, tag: &mut Tag| {
             let _g = &guard;
             on_child(id, child, tag);
         })
@@ -218,7 +220,14 @@ fn on_child(id: Id, child: usize, tag: &mut Tag) {
             }
         }
     }
-    crate::cb::run_script(&sim, id);
+    let is_sock = matches!(sim.st.borrow().srcs.get(&id).map(|s| &s.k), Some(K::Comp(k)) if matches!(k.children.get(child), Some(ChildM::Sock { .. })));
+    let ret = crate::cb::run_script(&sim, id);
+    if is_sock && ret == Ret::Reregister {
+        if let Some(s) = sim.st.borrow().srcs.get(&id) {
+            s.sh.child_ret.set(Some(PostAction::Reregister));
+        }
+        sim.probe("composite_child_asked_reregister");
+    }
 }
 
 pub fn has_cause(k: &CompK, now: u64) -> bool {
